@@ -88,7 +88,7 @@ def harnesses(tier, seed):
         if h["name"] == "selection":
             L = 7 if quick else 9
             grids = A.grids(L, 5) + A.grids(L, 6) if quick else [g for k in (5, 6, 7, 8) for g in A.grids(L, k)]
-            images = [c01.IMAGES[1], c01.IMAGES[[0, 2, 3, 4, 5][seed % 5]]] if quick else c01.IMAGES
+            images = [c01.IMAGES[1], c01.IMAGES[[6, 0, 2, 3, 4, 5][seed % 6]]] if quick else c01.IMAGES
             hs.append({"name": "selection", "body": M.make_selection_body(grids, L, 3 if quick else 4, images, c01.ALPHAS, PREFIX),
                        "bound_text": h["bound_text"]})
         elif h["name"] == "values":
